@@ -348,6 +348,8 @@ func replay(sc Scenario) (res Result) {
 			}
 		case "delete":
 			q = fmt.Sprintf("DELETE FROM t WHERE a = %d", st.V)
+		case "other":
+			q = fmt.Sprintf("CREATE TABLE o%d (a INT)", st.V)
 		case "filler":
 			// a table other than t in the selected database (nothing Session.tla talks about changes)
 			q = fmt.Sprintf("CREATE TABLE f%d (a INT)", st.V)
